@@ -196,6 +196,41 @@ def forward(ctx, chk, suf, mode, fac):
                     '%s: %s at out[%r] (+%r) within %d + 3 * name[%r] + 1' % (name, what, off, n, PRE, I.off) if ok else worst[1], func=name)
     if nstores < 4:
         raise AnalysisBroken('%s: only %d stores seen' % (name, nstores))
+    # the produced string is terminated on every return: the last store into the output before the return puts the
+    # terminator where the cursor ends up (an escape call does so itself: terminator at out+k, returns out+k) - or nothing
+    # is stored since the loop header and every arrival at the header already had the terminator under the cursor
+    def _terminated(region):
+        events, env = region[3], region[4]
+        o = env.get(cur)
+        outs = [ev for ev in events if ev[0] in ('store', 'store-range', 'store-bytes') and ev[1] == 'out']
+        if not outs:
+            return None
+        if not isinstance(o, Ptr) or o.base != 'out':
+            return False
+        ev = outs[-1]
+        if ev[0] == 'store':
+            d = ev[2] - o.off
+            return isinstance(ev[5], Lin) and ev[5].is_const() and ev[5].c == 0 and d.is_const() and d.c == 0
+        if ev[0] == 'store-range':
+            d = ev[2] + ev[3] - Lin.const(1) - o.off
+            return d.is_const() and d.c == 0
+        return False
+    eager = all(_terminated(r) is True for r in se.regions if r[1] != 'ret')
+    nret = 0
+    for r in se.regions:
+        if r[1] != 'ret':
+            continue
+        nret += 1
+        t = _terminated(r)
+        ok = t is True or (t is None and eager)
+        chk.add('forward-terminated', 'terminated:%s#%d' % (tag, nret) if ok else 'terminated:%s' % base_name(name), ok, r[7] or f.loc,
+                '%s (%s) returns after %s' % (name, 'Unix' if mode else 'Windows',
+                'storing the terminator at the final cursor position' if ok else
+                ('storing nothing since the loop header, where the character under the cursor is not known to be the terminator: '
+                 'a name that ends in a separator (or is empty) yields an unterminated string' if t is None else
+                 'a last store that is not the terminator at the final cursor position')), func=name)
+    if not nret:
+        raise AnalysisBroken('%s: no returning region' % name)
     # characters copied without escaping: only the segment that starts the name (the drive of a Windows name)
     for off, loc, fs in rawcopies:
         s2 = PState()
@@ -492,6 +527,8 @@ def run(ctx, chk):
                        '(equality of two string transformations over all names), validity of the unescaped first segment of a Windows drive '
                        'name.')
     chk.rule('forward-bound', 'every store of uriFilenameToUriString ends within the documented prefix constant + 3 * len + 1 characters', floor=40)
+    chk.rule('forward-terminated', 'on every path to a return of uriFilenameToUriString the last store into the output is the '
+             'terminator at the final cursor position (directly or by the escape routine)', floor=4)
     chk.rule('raw-copy', 'the only text copied into the URI without escaping is the segment that starts the name (drive of a Windows name)',
              floor=2)
     chk.rule('prefix-table', 'prefix written per kind of name = the documented forms, none longer than the documented constant', floor=4)
